@@ -234,9 +234,10 @@ def replay_walk(A, ops, classes, judge):
 
 
 # ---------------------------------------------------------------------------- the binding
-def load(res_pairs, res_walks, seed):
-    """(alphabets by (kind, ord), walks) from the TLC runs"""
-    rows = res_pairs.tagged('COPS')
+def load(res_pairs, res_walks, seed, tables=None):
+    """(alphabets by (kind, ord), walks) from the TLC runs; `tables`: the run whose operation tables cover the alphabet of
+    every sequence (default: the run of the pairs)"""
+    rows = (tables or res_pairs).tagged('COPS')
     lat = UNITS[seed % len(UNITS)]
     alph = {(r['kind'], r['ord']): Alphabet(r, lat) for r in rows}
     walks = [dict(w, src='pairs') for w in res_pairs.tagged('CWALK')]
